@@ -274,7 +274,8 @@ fn gen_input() -> Input {
             Input { bytes, what: format!("field:{}", names.join("+")), declared, server_fault: None, source_hint: data }
         }
         _ => {
-            let fault = gen::t(|t| match t.draw(6) {
+            let fault = gen::t(|t| match t.draw(8) {
+                6 | 7 => NetFault::LieContentLength(*t.pick(&[u64::MAX, 1 << 63, (1 << 63) - 1, 1 << 62, 1 << 40, 1 << 36, 0, 1])),
                 0 => NetFault::Extra(1 + t.draw(100) as usize),
                 1 => NetFault::Extra(1 << 20),
                 2 => NetFault::ErrorPage,
